@@ -11,7 +11,6 @@ import (
 	"os"
 	"strconv"
 	"strings"
-	"sync"
 )
 
 type prop struct {
@@ -123,30 +122,30 @@ func runConcurrent(p *prop, in *bufio.Reader, out *bufio.Writer) {
 	}
 	res := make([]string, len(lines))
 	next := make(chan int, len(lines))
+	var alone []int
 	for i := range lines {
-		next <- i
+		if p.exclusive != nil && p.exclusive(strings.Fields(lines[i])) {
+			alone = append(alone, i)
+		} else {
+			next <- i
+		}
 	}
 	close(next)
 	done := make(chan bool)
-	var gate sync.RWMutex
 	for w := 0; w < p.concurrent; w++ {
 		go func() {
 			for i := range next {
-				if p.exclusive != nil && p.exclusive(strings.Fields(lines[i])) {
-					gate.Lock()
-					res[i] = safeRun(p, lines[i])
-					gate.Unlock()
-				} else {
-					gate.RLock()
-					res[i] = safeRun(p, lines[i])
-					gate.RUnlock()
-				}
+				res[i] = safeRun(p, lines[i])
 			}
 			done <- true
 		}()
 	}
 	for w := 0; w < p.concurrent; w++ {
 		<-done
+	}
+	// the exclusive cases run one after the other, after the concurrent phase
+	for _, i := range alone {
+		res[i] = safeRun(p, lines[i])
 	}
 	for _, r := range res {
 		out.WriteString(r)
